@@ -1063,3 +1063,45 @@ Proof. eexists. split; [vm_compute; reflexivity|]. repeat split; vm_compute; aut
 (* the same history on the source configuration is not an execution: Read blocks in its send *)
 Lemma src_blocks_instead : run src_cfg init lossy_witness = None.
 Proof. vm_compute. reflexivity. Qed.
+
+(* ------------------------------------------------------------------ Read after Close *)
+
+(* the Close statement that releases lastPacket leaves no remainder behind *)
+Lemma close_release_clears g s s' c k i :
+  exec g s (CloseStep c) = Some s' -> get s c = Some k -> cphase k = Closing i ->
+  nth_error (close_ops g) i = Some CRelease ->
+  exists k', get s' c = Some k' /\ last k' = None /\ cphase k' = Closing (S i).
+Proof.
+  intros H G P O. unfold exec in H. destruct (panicked s); [discriminate|]. rewrite G, P, O in H.
+  inversion H; subst; clear H. unfold get, with_conn; cbn [conns].
+  rewrite nth_error_upd_same by (eapply get_lt; eauto). eexists. split; [reflexivity|]. split; reflexivity. Qed.
+
+(* without a remainder and with an empty readCh, Read returns no bytes ... *)
+Lemma read_nothing_held g s c k n :
+  get s c = Some k -> last k = None -> readq k = [] -> exec g s (ConnRead c n) = None.
+Proof. intros G L Q. unfold exec. destruct (panicked s); [reflexivity|]. rewrite G, L, Q. reflexivity. Qed.
+
+(* ... and on an association whose Close has signalled closure it returns io.EOF *)
+Lemma read_closed_eof g s c k :
+  panicked s = false -> read_selects_closed g = true -> get s c = Some k -> sclosed k = true -> last k = None ->
+  length (closeCh s) < cap_close g ->
+  exists s', exec g s (ConnEof c) = Some s' /\ trace s' = trace s ++ [EEof c].
+Proof.
+  intros P R G S L Cap. unfold exec. rewrite P, G, L, R, S. rewrite orb_true_r.
+  apply Nat.ltb_lt in Cap. rewrite Cap.
+  destruct (read_eof_notifies g); eexists; split; reflexivity. Qed.
+
+Lemma src_close_releases_first :
+  nth_error (close_ops src_cfg) 0 = Some CRelease /\ read_selects_closed src_cfg = true.
+Proof. split; reflexivity. Qed.
+
+(* a large datagram read in part, Close, then Read again: EOF, no bytes *)
+Definition read_after_close : list step :=
+  [SockRecv (D 1 0 9000%N); LoopRecv; LoopSend; ConnRead 0 2048%N; HandlerReturn 0;
+   CloseStep 0; CloseStep 0; CloseStep 0; CloseStep 0; CloseStep 0].
+Lemma src_read_after_close :
+  exists s, run src_cfg init read_after_close = Some s /\
+    exec src_cfg s (ConnRead 0 2048%N) = None /\
+    (exists s', exec src_cfg s (ConnEof 0) = Some s' /\ List.last (trace s') EStop = EEof 0) /\
+    chunks_ok (trace s ++ [ERead 0 (D 1 0 9000%N) false 2048%N 2048%N]) = false.
+Proof. eexists. split; [vm_compute; reflexivity|]. split; [reflexivity|]. split; [eexists; split; vm_compute; reflexivity|reflexivity]. Qed.
